@@ -435,7 +435,7 @@ func (e *Engine) ufApply(st *State, name string, outBits int, parts Slice, injec
 			injectiveUF["uf_"+sig] = true
 		}
 	}
-	if injective {
+	if injective && !noInverseAxioms {
 		for i, a := range args {
 			inv := UF(fmt.Sprintf("ufinv%d_%s", i, sig), a.S, t)
 			st.addPC(Eq(inv, a))
@@ -453,6 +453,7 @@ func (e *Engine) ufApply(st *State, name string, outBits int, parts Slice, injec
 }
 
 var ufTags = map[string]int{}
+var noInverseAxioms = true
 
 // ---------- inputs
 
